@@ -75,6 +75,7 @@ func jsonCmd(args []string) error {
 	fs := flag.NewFlagSet("jsonx", flag.ExitOnError)
 	out := fs.String("out", "json.ndjson", "trace file")
 	casesPath := fs.String("cases", "", "TLC lifecycle cases")
+	scriptsPath := fs.String("scripts", "", "TLC script-template cases (MC_ScriptClass) used as output scripts")
 	rangeHi := fs.Int("range", 1000000, "exhaustive amount range [0, n)")
 	n := fs.Int("n", 2000, "random / boundary amounts")
 	fs.Parse(args)
@@ -193,6 +194,40 @@ func jsonCmd(args []string) error {
 				})
 			}
 			tr.emit(e)
+		}
+	}
+	// ---- outputs carrying template instances and their mutations (MC_ScriptClass cases) -----------
+	if *scriptsPath != "" {
+		cs, err := readNDJSON(*scriptsPath)
+		if err != nil {
+			return err
+		}
+		for _, c := range cs {
+			ls := bscript.Script(unints(c["s"]))
+			o := &bt.Output{Satoshis: 1234, LockingScript: &ls}
+			for _, dialect := range []string{"lib", "node"} {
+				dialect := dialect
+				e := Ev{"ev": "json", "src": "class", "dialect": dialect, "obj": "output", "nin": 0, "nout": 1, "expectok": false, "orig": projOut(o)}
+				jsonRound(e, func() ([]byte, error) {
+					if dialect == "node" {
+						return json.Marshal(o.NodeJSON())
+					}
+					return json.Marshal(o)
+				}, func(b []byte) (interface{}, error) {
+					back := &bt.Output{}
+					var err error
+					if dialect == "node" {
+						err = json.Unmarshal(b, back.NodeJSON())
+					} else {
+						err = json.Unmarshal(b, back)
+					}
+					if err != nil {
+						return nil, err
+					}
+					return projOut(back), nil
+				})
+				tr.emit(e)
+			}
 		}
 	}
 	// ---- UTXOs and UTXO lists (distinct elements: ids, indexes, amounts, scripts) ------------------
